@@ -721,9 +721,13 @@ func (o Object) Set(name string, value interface{}) error {
 // Equivalent to calling Object.keys on the object.
 func (o Object) Keys() []string {
 	var keys []string
-	o.object.enumerate(false, func(name string) bool {
-		keys = append(keys, name)
-		return true
+	// Enumerating a bridged Go map converts its keys, which can fail (interface
+	// or struct keys): Keys has no error result, the keys found so far are returned.
+	catchPanic(func() { //nolint:errcheck, gosec
+		o.object.enumerate(false, func(name string) bool {
+			keys = append(keys, name)
+			return true
+		})
 	})
 	return keys
 }
@@ -736,9 +740,12 @@ func (o Object) KeysByParent() [][]string {
 	for o := o.object; o != nil; o = o.prototype {
 		var l []string
 
-		o.enumerate(false, func(name string) bool {
-			l = append(l, name)
-			return true
+		o := o
+		catchPanic(func() { //nolint:errcheck, gosec
+			o.enumerate(false, func(name string) bool {
+				l = append(l, name)
+				return true
+			})
 		})
 
 		a = append(a, l)
